@@ -33,6 +33,11 @@ type Config struct {
 	SyncOnWrite bool
 	BufferSize  int
 	FS          vfs.FS
+	// ExternalSegments is set when the owner assigns segment ids itself (the LSM names each
+	// segment after its memtable via SwitchSegment). Size-based auto rotation is then disabled:
+	// rotating to activeID+1 would collide with the id of the owner's next segment, which is
+	// opened with truncate and would destroy the records written after the auto rotation.
+	ExternalSegments bool
 }
 
 // EntryInfo describes an entry written to WAL.
@@ -294,7 +299,7 @@ func (m *Manager) AppendRecords(records ...Record) ([]EntryInfo, error) {
 }
 
 func (m *Manager) ensureCapacity(need int64) error {
-	if m.activeSize+need <= m.segmentSize {
+	if m.cfg.ExternalSegments || m.activeSize+need <= m.segmentSize {
 		return nil
 	}
 	return m.rotateLocked()
